@@ -5,10 +5,13 @@
 (* from IOEnv.PATHS.  (ii) fault sets x option sets, with MustFail from Loader.tla.                                      *)
 EXTENDS Loader, Json, IOUtils, SequencesExt
 Paths == ndJsonDeserialize(IOEnv.PATHS)
-Kinds == {"null", "bool", "int", "float", "string", "empty-list", "list-of-strings", "list-of-maps", "empty-map", "map", "int-keyed-map", "nested-list"}
-Positions == {"single", "override-top", "override-base", "extended-base", "extending", "included"}
-SchemaKind(k) == CASE k \in {"empty-list", "list-of-strings", "list-of-maps", "nested-list"} -> "array"
-                   [] k \in {"empty-map", "map", "int-keyed-map"} -> "object"
+Kinds == {"null", "bool", "int", "float", "string", "empty-list", "list-of-strings", "list-of-maps", "empty-map", "map", "int-keyed-map", "nested-list",
+          "odd-strings", "odd-string", "odd-map", "reset-tag", "override-tag"}
+Positions == {"single", "override-top", "override-base", "extended-base", "extending", "included",
+              "pair-map", "pair-list", "pair-string"}     \* the attribute present in both files: base of the given kind, override of the case kind
+SchemaKind(k) == CASE k \in {"empty-list", "list-of-strings", "list-of-maps", "nested-list", "odd-strings"} -> "array"
+                   [] k \in {"empty-map", "map", "int-keyed-map", "odd-map", "override-tag"} -> "object"
+                   [] k = "reset-tag" -> "null"
                    [] k = "int" -> "integer" [] k = "float" -> "number" [] k = "bool" -> "boolean" [] k = "null" -> "null" [] OTHER -> "string"
 Admits(p, k) == LET a == ToSet(p.admits) IN
                 "any" \in a \/ SchemaKind(k) \in a \/ (SchemaKind(k) = "integer" /\ "number" \in a)
